@@ -348,3 +348,26 @@ Theorem C07_top_flag : forall c0 bin toks os m a b,
      exists e, fm_get (a_id a) (ms_args m) = Some e /\ m_raw e = [[flag_value (negb b)]] /\ m_source e = Some SDefault).
 Proof. exact parse_top_flag. Qed.
 Print Assumptions C07_top_flag.
+
+(** ---- the typed getters' view of the result ([get_count_view] / [get_flag_view], ParseProofs/ActionsTop.v: the first
+    stored value read back as the model reads it for [get_one::<u8>] / [get_one::<bool>]) ---- *)
+Theorem C07_top_get_count : forall c0 bin toks os m a,
+  let c := build_self (with_bin c0 bin) in
+  top_class c0 bin toks os -> parse_top c0 (bin :: toks) = OOk m -> In a (c_args c) ->
+  count_flag a -> override_free c (a_id a) ->
+  a_default a = [[48]] -> a_env a = None -> a_default_ifs a = [] -> a_delim a = None ->
+  get_count_view m (a_id a) = Some (N.min (N.of_nat (count_occ (a_id a) os)) 255).
+Proof. exact parse_top_get_count. Qed.
+Print Assumptions C07_top_get_count.
+
+Theorem C07_top_get_flag : forall c0 bin toks os m a b,
+  let c := build_self (with_bin c0 bin) in
+  top_class c0 bin toks os -> parse_top c0 (bin :: toks) = OOk m -> In a (c_args c) ->
+  a_get_action a = flag_action b -> a_takes_value a = false -> a_delim a = None ->
+  a_default_missing a = [flag_value b] -> a_default a = [flag_value (negb b)] ->
+  (forall os1 o os2, os = os1 ++ o :: os2 -> o_arg o = a -> Forall (unrelated c (a_id a)) os2 ->
+     get_flag_view m (a_id a) = Some b) /\
+  (count_occ (a_id a) os = 0%nat -> a_env a = None -> a_default_ifs a = [] ->
+     get_flag_view m (a_id a) = Some (negb b)).
+Proof. exact parse_top_get_flag. Qed.
+Print Assumptions C07_top_get_flag.
